@@ -8,6 +8,14 @@
 //   spaces record07 <out.ndjson> <n> [space-name-filter]   adversarial interpolation probes
 //   spaces list                            names of the spaces record06/record07 drive
 //
+// Spaces with laws of their own (Space.fam in the trace): the 3-D Dubins airplane spaces Owen / Vana / VanaOwen
+// (Triple events carry the straight-line distances of the positions; Interp events the length of getPath(), whether
+// interpolate(from,to,t) is the point of that same path, chords between consecutive interpolants, pitch excess,
+// heading flags, and whether a path was found at all), SpaceTimeStateSpace (STPair: ordered pairs with the component
+// distances, timeToCoverDistance and the infinite flags; InterpBasic for pairs beyond the speed limit), the
+// constrained spaces over R^3 with the unit sphere (CInterp: distances of the interpolants from `from` / to `to`,
+// aliasing as distances, discreteGeodesic() outcome before and after), EmptyStateSpace (ordinary events).
+//
 // The harness never decides a law on recorded observations (TLC does, against SpaceLaws); in replay
 // mode it compares the real result with the expectation TLC computed from the lattice model.
 #include "vtrace.h"
@@ -498,6 +506,8 @@ static bool close(double x, double y)
 {
     if (x == y)
         return true;   // also two infinities
+    if (!std::isfinite(x) || !std::isfinite(y))
+        return false;  // (the relative bound below would be infinite)
     return std::fabs(x - y) <= 1e-12 + 1e-12 * std::max(std::fabs(x), std::fabs(y));
 }
 
@@ -1647,6 +1657,24 @@ static void canned(const std::string &name, const Node &nd, bool interp, std::ve
         lp.s = 48;
         lp.u = 32;
         v.push_back(lp);
+        // the same with round numbers (pitch -pi/24 -> -pi/12, heading -pi/4 -> -pi/8): a loop in Vana's path
+        Probe lv2{"canned-loop-vana", fixed(st(1.5, -0.75, 0, -0.13089969389957468, -0.78539816339744828),
+                                            st(3, -3, 1.5, -0.26179938779914941, -0.39269908169872414), st(0, 0, 0, 0, 0)), true};
+        lv2.s = 17;
+        lv2.u = 8;
+        v.push_back(lv2);
+        // straight above, heading across the seam: no Vana-Owen path is found
+        Probe np{"canned-nopath", fixed(st(3, 3, 3, -0.26179938779914941, -3.1415926535897931),
+                                        st(3, 3, 4.5, -0.52359877559829882, 3.141592653588793), st(0, 0, 0, 0, 0)), true};
+        np.s = 4;
+        np.u = 32;
+        v.push_back(np);
+        // top to bottom of the box: the descent is flown a few micro-radians steeper than the pitch range allows
+        Probe sl{"canned-steep", fixed(st(2.25, -0.75, 6, -0.26179938779914941, 1.337930808307374),
+                                       st(-2.25, 0.75, -6, 0.26179938779914941, -1.8036618452824191), st(0, 0, 0, 0, 0)), true};
+        sl.s = 49;
+        sl.u = 64;
+        v.push_back(sl);
     }
     if (!interp)
     {
@@ -2207,6 +2235,9 @@ static int record(const std::string &out, long n, const std::string &filter, boo
                 nd.sp->interpolate(a(), b(), 0.0, p0());
                 nd.sp->interpolate(a(), b(), 1.0, p1());
                 bool pp = false;
+                // proportionality and re-parameterisation are not claimed of the airplane spaces, and their interpolants
+                // may lie outside the bounds: no distances from / between interpolants are taken there
+                const bool geoLaws = nd.fam != "airplane";
                 for (int k : K)
                 {
                     double t = k / 64.0;
@@ -2218,7 +2249,7 @@ static int record(const std::string &out, long n, const std::string &filter, boo
                     nd.sp->interpolate(a(), bt(), t, bt());
                     ks.push_back(k);
                     inb.push_back(nd.sp->satisfiesBounds(pt()) ? 1 : 0);
-                    dat.push_back(fx(D(a(), pt()), nf));
+                    dat.push_back(geoLaws ? fx(D(a(), pt()), nf) : 0);
                     alF.push_back(sameBits(nd, af(), pt()) ? 1 : 0);
                     alT.push_back(sameBits(nd, bt(), pt()) ? 1 : 0);
                 }
@@ -2230,7 +2261,7 @@ static int record(const std::string &out, long n, const std::string &filter, boo
                 ev = json{{"e", "Interp"}, {"cls", p.cls}, {"fab", fab},
                           {"dab", fx(dab, nf)}, {"d0", fx(D(p0(), a()), nf)}, {"d1", fx(D(p1(), b()), nf)},
                           {"ks", ks}, {"inb", inb}, {"dat", dat}, {"alF", alF}, {"alT", alT},
-                          {"s", ksn}, {"u", kun}, {"rep", fx(D(pr2(), pq()), nf)},
+                          {"s", ksn}, {"u", kun}, {"rep", geoLaws ? fx(D(pr2(), pq()), nf) : 0},
                           {"inbS", nd.sp->satisfiesBounds(ps())}, {"inbR", nd.sp->satisfiesBounds(pr2())},
                           // some interpolant of this probe carries the angle +pi (D2)
                           {"plusPi", pp || hasPlusPiLeaf(nd, ps()) || hasPlusPiLeaf(nd, pr2())}};
@@ -2244,7 +2275,9 @@ static int record(const std::string &out, long n, const std::string &filter, boo
                     ++facts[has ? "airplane_interp_with_path" : "airplane_interp_without_path"];
                     ++facts[sh.name + "_path_category_" + std::string(1, ap.category(a(), b()))];
                     std::set<int> sorted(K.begin(), K.end());
-                    json cks = json::array(), chord = json::array(), sameP = json::array(), pex = json::array();
+                    for (int k = 0; k <= 64; k += 4)
+                        sorted.insert(k);   // a chord every 1/16 of the path at least
+                    json cks = json::array(), chord = json::array(), sameP = json::array(), pex = json::array(), yin = json::array();
                     Scoped prev(nd), viaP(nd);
                     bool first = true;
                     for (int k : sorted)
@@ -2262,6 +2295,8 @@ static int record(const std::string &out, long n, const std::string &filter, boo
                         if (ap.hasPitch)
                             ex = std::max({0.0, pos3(pt())[3] - ap.pitchHi, ap.pitchLo - pos3(pt())[3]});
                         pex.push_back(vt::tlcInt(std::llround(std::min(ex, 2.0) * 1e9)));
+                        // the heading on its own (the position may leave its box, as planar Dubins curves do)
+                        yin.push_back(nd.sub[1].sp->satisfiesBounds(pt()->as<ob::CompoundState>()->components[1]) ? 1 : 0);
                     }
                     ev["nopath"] = !has;
                     ev["plen"] = fx(has ? plen : dab, nf);
@@ -2270,6 +2305,7 @@ static int record(const std::string &out, long n, const std::string &filter, boo
                     ev["dab3"] = fx3(dab, nf);
                     ev["sameP"] = sameP;
                     ev["pex"] = pex;
+                    ev["yin"] = yin;
                 }
                 ev["repro"] = repro;
                 emit(ev);
